@@ -3,6 +3,13 @@
 import json, sys
 
 CLAIMED = {
+ "C06": dict(
+   category="model_checking",
+   text="Explicit-state BFS to closure (5 systems quick / 10 thorough, ~95 000 states quick) over the real ObjectSet and ObjectSetPhase controllers with workload status changes (ready / not-ready / stale observedGeneration), user pause / unpause / archive / delete, the garbage collector and operator crashes before request i of a pass; systems are a single ObjectSet with 2-3 local/delegated phases and a two-revision handover chain r1{a,b} -> r2{a,c}. On every status write of the ObjectSet controller: Available=True for generation G requires that the pass read generation G, saw every object of every phase present and passing the independent reference prober (delegated: phase object Available for its current generation) and that controllerOf equals exactly what the pass saw under the ObjectSet's control; Succeeded is only newly set together with Available and without InTransition and is never withdrawn; InTransition is only cleared when every spec object was seen controlled; Archived=True comes without Available and with empty controllerOf, and afterwards the controller sends nothing but the initial read.",
+   design_ref="DESIGN.md §7 C06",
+   note="Trusted: kmodel; pass-atomic interleaving (status writes are pinned by resourceVersion; the call-granular window is covered for teardown in C05).",
+   technique="explicit-state model checking (BFS, canonical state hashing) with history monitors on every status write",
+   engine="world"),
  "C05": dict(
    category="model_checking",
    text="Stateless model checking at API-call granularity: the real teardown pass of an owner (native ObjectSet; annotation-strategy ObjectSetPhase; orphan deletion) over one phase whose objects start in every combination of {controlled, co-owned, foreign, absent} runs as a thread under the controlled scheduler with a scheduling point before every API request, against up to two third-party actions on a target object (re-own to another controller, delete + re-create unowned / owned by another, modify spec, strip owners); every interleaving with <= 2 preemptions is executed (36 systems, ~290 000 executions quick; 3-object phases thorough). Monitors on every request: each delete carries UID+resourceVersion preconditions equal to the version the same pass last read; a delete that takes effect hits an object the owner controls at that instant; an effective write on an object it merely co-owns changes nothing beyond its own owner reference and the cache label; objects owned by others are untouched; orphan deletion sends no delete/patch at all.",
